@@ -277,6 +277,57 @@ def genCycles (rng : Rng) (k cycles : Nat) : Rng × Array String :=
   let s := s.drain
   (s.rng, s.lines)
 
+/-- overlapping generations: besides `k` long-lived groups, up to `w + 1` short-lived groups are alive at once; when the
+    window is full a burst of them (1 … all) is read out — oldest first, newest first or at random — so that group
+    slots are given back in an order that differs from the order in which they were taken, several in a row -/
+def genOverlap (rng : Rng) (k w rounds policy : Nat) : Rng × Array String :=
+  let (rng, n) := rng.pick [2, 4, 16]
+  let base := 2 * k
+  let pairs := w + 3
+  let cap := base + 2 * pairs + 2
+  let s := GenSt.start rng n cap
+  let s := (List.range k).foldl (fun (s : GenSt) i =>
+    let ops : List Op := [.add (2 * i), .add (2 * i + 1), .bind (2 * i) (2 * i + 1) (.alpha 0), .put (2 * i) (Hx.Hex.ofBytes [1])]
+    match s.tryOps ops with
+    | some s' => s'
+    | none => s) s
+  let (s, _) := (List.range rounds).foldl (fun (acc : GenSt × List Nat) c =>
+    let (s, alive) := acc
+    match (List.range pairs).find? (· ∉ alive) with
+    | none => acc
+    | some j =>
+      let a := base + 2 * j
+      let b := a + 1
+      let d : Hex := Hx.Hex.ofBytes [UInt8.ofNat c, 7]
+      let (rng, variant) := s.rng.below 3
+      let s := { s with rng := rng }
+      let mk : List Op :=
+        if variant = 0 then [.add a, .add b, .bind a b (.alpha 1), .put b d]
+        else if variant = 1 then [.add a, .add b, .put b d, .bind b a (.alpha 0)]
+        else [.add a, .add b, .bind a b (.alpha 1), .put a d, .put b d, .data a]
+      match s.tryOps mk with
+      | none => (s, alive)
+      | some s =>
+        let alive := alive ++ [j]
+        if alive.length ≤ w then (s, alive)
+        else
+          let (rng, burst) := s.rng.below alive.length
+          let s := { s with rng := rng }
+          (List.range (burst + 1)).foldl (fun (acc : GenSt × List Nat) _ =>
+            let (s, alive) := acc
+            if alive.isEmpty then acc
+            else
+              let (rng, r) := s.rng.below alive.length
+              let s := { s with rng := rng }
+              let idx := if policy = 0 then 0 else if policy = 1 then alive.length - 1 else r
+              let j' := alive.getD idx 0
+              let s := match s.tryOps [.data (base + 2 * j' + 1), .keys] with
+                | some s' => s'
+                | none => s
+              (s, alive.eraseIdx idx)) (s, alive)) (s, [])
+  let s := s.drain
+  (s.rng, s.lines)
+
 
 /-! ### two handles: clone (C10) and save/reload (C08, C09) -/
 
@@ -645,7 +696,11 @@ def genProfile (profile : String) (seed : Nat) (count len : Nat) : Array String 
         if i % 3 = 0 then genManyGroups rng (13 + (i / 3) % 2) len
         else if i % 3 = 1 then genBigGroup rng (14 + (i / 3) % 3) len
         else genRandomHistory rng profGc len
-      | "cycle" => genCycles rng (i % 14) len
+      | "cycle" =>
+        if i % 3 = 2 then
+          let w := 1 + (i / 3) % 5
+          genOverlap rng ((i / 15) % (12 - w)) w len ((i / 3) % 3)
+        else genCycles rng (i % 14) len
       | "fork" => genFork rng len
       | "render" => genRender rng len
       | "slice" => genSlice rng len
